@@ -194,3 +194,81 @@ package raft
 //@   ensures len(ents) >= 1 ==> (forall k int :: 0 <= k && k < len(ents) ==> lterm(l, old(ents[0].Index) + k) == old(ents[k].Term))
 //@   ensures lfirst(l) == old(lfirst(l))
 //@   modifies l.unstable.entries, l.unstable.offset, l.unstable.entries[len(l.unstable.entries):cap(l.unstable.entries)]
+
+// The heart of C02 on one replica: an AppendEntries request that passes the log-matching test is merged
+// without ever changing an entry at or below the commit index (a conflict there panics instead), the
+// log then contains the offered entries, and the commit index only moves forward.
+//@ func (l *raftLog) maybeAppend(index uint64, logTerm uint64, committed uint64, ents []pb.Entry) (lastnewi uint64, ok bool)
+//@   requires lOK(l) && logTerm != 0 && index >= 1 && index + len(ents) + 1 < 4611686018427387904
+//@   requires contig(ents, index + 1) && (forall k int :: 0 <= k && k < len(ents) ==> ents[k].Term != 0)
+//@   requires l.unstable.entries.arr != ents.arr && ghost(sfirst, l.storage) <= index + 1
+//@   ensures lOK(l) && l.applied == old(l.applied) && lfirst(l) == old(lfirst(l))
+//@   ensures forall i uint64 :: lfirst(l) - 1 <= i && i <= old(l.committed) ==> lterm(l, i) == old(lterm(l, i))
+//@   ensures l.committed >= old(l.committed)
+//@   ensures ok <==> old(lfirst(l) - 1 <= index && index <= llast(l) && lterm(l, index) == logTerm)
+//@   ensures !ok ==> lastnewi == 0 && l.committed == old(l.committed) && llast(l) == old(llast(l))
+//@   ensures ok ==> lastnewi == index + len(ents) && lastnewi <= llast(l) && lterm(l, index) == logTerm && l.committed == max(old(l.committed), min(committed, lastnewi))
+//@   ensures ok ==> (forall k int :: 0 <= k && k < len(ents) ==> lterm(l, index + 1 + k) == old(ents[k].Term))
+//@   modifies l.committed, l.unstable.entries, l.unstable.offset, l.unstable.entries[len(l.unstable.entries):cap(l.unstable.entries)]
+
+//@ func (l *raftLog) mustCheckOutOfBounds(lo uint64, hi uint64) error
+//@   requires lOK(l)
+//@   ensures result == nil || result == ErrCompacted
+//@   ensures result == ErrCompacted <==> lo < lfirst(l)
+//@   ensures lo <= hi && (result == nil ==> lfirst(l) <= lo && hi <= llast(l) + 1)
+
+// slice: entries lo..hi-1 (or a non-empty prefix of them under the size limit), contiguous, with the log's terms
+//@ func (l *raftLog) slice(lo uint64, hi uint64, maxSize uint64) ([]pb.Entry, error)
+//@   requires lOK(l)
+//@   ensures result1 == nil || result1 == ErrCompacted
+//@   ensures result1 == nil ==> lfirst(l) <= lo && lo <= hi && hi <= llast(l) + 1 && len(result0) <= hi - lo && (lo < hi ==> len(result0) >= 1)
+//@   ensures result1 == nil ==> (forall k int :: 0 <= k && k < len(result0) ==> result0[k].Index == lo + k && result0[k].Term == lterm(l, lo + k))
+
+// entries handed to the application: start right after applied (or at the first index), contiguous, all committed
+//@ func (l *raftLog) nextEnts() (ents []pb.Entry)
+//@   requires lOK(l) && lfirst(l) - 1 <= l.applied
+//@   ensures forall k int :: 0 <= k && k < len(ents) ==> ents[k].Index == max(l.applied + 1, lfirst(l)) + k && ents[k].Index <= l.committed && ents[k].Term == lterm(l, ents[k].Index)
+//@   ensures l.committed + 1 > max(l.applied + 1, lfirst(l)) ==> len(ents) >= 1
+
+//@ func (l *raftLog) hasNextEnts() bool
+//@   requires lOK(l)
+//@   ensures result <==> l.committed + 1 > max(l.applied + 1, lfirst(l))
+
+// installing a snapshot: the log restarts right after it and the commit index jumps to it
+//@ func (l *raftLog) restore(s pb.Snapshot)
+//@   requires l != nil && sOK(l.storage) && s.Metadata.Index + 1 < 4611686018427387904 && l.logger == l.unstable.logger
+//@   ensures l.committed == s.Metadata.Index && l.unstable.offset == s.Metadata.Index + 1 && len(l.unstable.entries) == 0 && l.unstable.snapshot != nil && l.unstable.snapshot.Metadata.Index == s.Metadata.Index && l.unstable.snapshot.Metadata.Term == s.Metadata.Term
+//@   modifies l.committed, l.unstable.offset, l.unstable.entries, l.unstable.snapshot
+
+// ================= the raft state machine object =================
+//@ spec prsOK(r *raft) bool = r.prs != nil && (forall id uint64 :: in(id, r.prs) ==> r.prs[id] != nil)
+//@ spec rOK(r *raft) bool = r != nil && r.raftLog != nil && lOK(r.raftLog) && prsOK(r)
+
+// majority of the VOTERS (r.prs); learners are not counted
+//@ func (r *raft) quorum() int
+//@   requires r != nil
+//@   ensures result == len(r.prs) / 2 + 1 && 2 * result > len(r.prs)
+
+// the commit index advances only to a value that (a) some voter's Match attests, read from a buffer that
+// holds exactly one slot per voter, and (b) passes the log's current-term rule (raftLog.maybeCommit)
+//@ func (r *raft) maybeCommit() bool
+//@   requires rOK(r) && len(r.prs) >= 1 && r.Term != 0
+//@   ensures lOK(r.raftLog) && len(r.matchBuf) == len(r.prs)
+//@   ensures forall j int :: 0 <= j && j < len(r.matchBuf) ==> (exists id uint64 :: in(id, r.prs) && r.matchBuf[j] == r.prs[id].Match)
+//@   ensures forall a int, b int :: 0 <= a && a <= b && b < len(r.matchBuf) ==> r.matchBuf[a] <= r.matchBuf[b]
+//@   ensures result ==> r.raftLog.committed == r.matchBuf[len(r.matchBuf) - (len(r.prs) / 2 + 1)] && lterm(r.raftLog, r.raftLog.committed) == r.Term && r.raftLog.committed > old(r.raftLog.committed)
+//@   ensures !result ==> r.raftLog.committed == old(r.raftLog.committed)
+//@   ensures r.raftLog == old(r.raftLog) && r.Term == old(r.Term)
+//@   modifies r.matchBuf, r.matchBuf[0:cap(r.matchBuf)], r.raftLog.committed
+//@ loop 1
+//@   invariant r.raftLog == old(r.raftLog) && r.prs == old(r.prs) && prsOK(r) && len(r.matchBuf) == len(r.prs) && idx == nvisited() && 0 <= idx && idx <= len(r.prs)
+//@   invariant old(cap(r.matchBuf)) >= len(r.prs) ==> r.matchBuf.arr == old(r.matchBuf.arr) && r.matchBuf.off == old(r.matchBuf.off)
+//@   invariant old(cap(r.matchBuf)) < len(r.prs) ==> fresh(r.matchBuf)
+//@   invariant forall j int :: 0 <= j && j < idx ==> (exists id uint64 :: in(id, r.prs) && r.matchBuf[j] == r.prs[id].Match)
+//@   invariant forall p int :: r.matchBuf.off <= p && p < r.matchBuf.off + idx ==> (exists id uint64 :: in(id, r.prs) && at(r.matchBuf, p) == r.prs[id].Match)
+
+//@ property C03
+// what must be on stable storage before messages leave: entries, vote, term
+//@ func MustSync(st pb.HardState, prevst pb.HardState, entsnum int) bool
+//@   ensures result <==> (entsnum != 0 || st.Vote != prevst.Vote || st.Term != prevst.Term)
+//@ property C02
